@@ -867,6 +867,7 @@ namespace link_layer {
         std::uint8_t                    phy_update_request_receive_;
         bool                            remote_versions_request_pending_;
         bool                            version_indication_received_;
+        bool                            connection_established_reported_;
 
         // default configuration parameters
         typedef                         advertising_interval< 100 >         default_advertising_interval;
@@ -901,6 +902,7 @@ namespace link_layer {
         , phy_update_request_pending_( false )
         , remote_versions_request_pending_( false )
         , version_indication_received_( false )
+        , connection_established_reported_( false )
     {
         using user_timer_t = typename bluetoe::details::find_by_meta_type<
             details::synchronized_connection_event_callback_meta_type,
@@ -960,6 +962,7 @@ namespace link_layer {
                 procedure_applied_to_pending_event_     = false;
                 remote_versions_request_pending_        = false;
                 version_indication_received_            = false;
+                connection_established_reported_        = false;
                 disconnecting_reason_                   = connection_timeout;
                 procedure_timeout_                      = delta_time();
 
@@ -1048,8 +1051,10 @@ namespace link_layer {
             restart_user_timer_requested_ = false;
         }
 
-        if ( state_ == state::connecting )
+        // disconnect() might have been called before the first connection event
+        if ( !connection_established_reported_ )
         {
+            connection_established_reported_ = true;
             this->connection_established( details(), connection_data_, static_cast< radio_t& >( *this ) );
         }
         else if ( state_ == state::connection_changed )
@@ -1465,7 +1470,7 @@ namespace link_layer {
         // deliver the events that are queued already, so that the event that ends the connection always finds room
         this->template handle_connection_events< link_layer< Server, ScheduledRadio, Options... > >();
 
-        if ( state_ != state::connecting )
+        if ( connection_established_reported_ )
         {
             this->synchronized_connection_event_callback_disconnect();
             this->connection_closed( disconnecting_reason_, connection_data_, static_cast< radio_t& >( *this ) );
